@@ -280,6 +280,23 @@ def judge(item, ex, specs, kwargs, env, pick_branch):
                 except Exception:  # pylint: disable=broad-except
                     pass
             if v[0] == "fail":
+                # is the law's own evaluation reliable here?  (cosh/sinh of huge arguments cancel beyond 30 digits)
+                try:
+                    N.PREC[0] = 120
+                    v120 = L.spec_predicate(sp, env, got)
+                finally:
+                    N.PREC[0] = 30
+                if v120[0] == "ok":
+                    rec["residual"] = ("ok", "law residual vanishes at 120 digits")
+                    continue
+                try:
+                    d30, d120 = v[1], v120[1]
+                    if any(not _same(d30[k], d120[k]) for k in ("lhs", "rhs") if k in d30 and k in d120):
+                        rec["residual"] = ("skipped", "the law's own evaluation is not stable between 30 and 120 digits here")
+                        continue
+                except Exception:  # pylint: disable=broad-except
+                    pass
+            if v[0] == "fail":
                 rec["status"] = "law-fail"
         del fenv
     return rec
@@ -667,14 +684,14 @@ def limited(seconds, fn, default):
     """fn() under a nested alarm (the enclosing budget of the driver is restored afterwards)."""
     import signal  # pylint: disable=import-outside-toplevel
     import time  # pylint: disable=import-outside-toplevel
-    old_handler = signal.getsignal(signal.SIGALRM)
+    old_handler = signal.getsignal(signal.SIGVTALRM)
 
     def h(*_a):
         raise _Limit()
-    t0 = time.time()
-    remaining = signal.alarm(0)
-    signal.signal(signal.SIGALRM, h)
-    signal.alarm(seconds)
+    del time
+    remaining, _i = signal.setitimer(signal.ITIMER_VIRTUAL, 0)
+    signal.signal(signal.SIGVTALRM, h)
+    signal.setitimer(signal.ITIMER_VIRTUAL, seconds)
     try:
         return fn()
     except _Limit:
@@ -682,10 +699,10 @@ def limited(seconds, fn, default):
     except Exception:  # pylint: disable=broad-except
         return default
     finally:
-        signal.alarm(0)
-        signal.signal(signal.SIGALRM, old_handler)
+        left, _i = signal.setitimer(signal.ITIMER_VIRTUAL, 0)
+        signal.signal(signal.SIGVTALRM, old_handler)
         if remaining:
-            signal.alarm(max(1, int(remaining - (time.time() - t0))))
+            signal.setitimer(signal.ITIMER_VIRTUAL, max(0.5, remaining - (seconds - left)))
 
 
 TARGETS = (sympy.Rational(-5, 2), sympy.Integer(-1), sympy.Integer(0), sympy.Integer(3), sympy.Rational(5, 2), sympy.Integer(60))
